@@ -439,6 +439,9 @@ RUNTIME = {
                               total_power=54321.0, scaling=0.37),
     'missing_components': dict(asms={'a1': dict(unrodded=[('lower', 0.0, 0.3, 'simple')])}, n_cells=2, components=('pins',)),
     'double_duct': dict(asms={'a1': dict(n_duct=2, unrodded=[('upper', 0.7, 1.0, 'simple')])}, n_cells=3),
+    # assemblies with DIFFERENT axial power meshes, bounds inside the unrodded regions
+    'different_power_meshes': dict(asms={'a1': dict(unrodded=[('lower', 0.0, 0.3, 'simple'), ('upper', 0.7, 1.0, 'simple')])},
+                                   positions=[('a1', 1, 1, 0.3), ('a1', 2, 1, 0.3), ('a1', 2, 2, 0.25)], n_cells=[2, 7, 5]),
 }
 
 
